@@ -1,0 +1,7 @@
+//go:build !verif
+
+package res
+
+// verifPoint is an instrumentation point that is only active when built with
+// the "verif" build tag. See verif_on.go.
+func verifPoint(string, interface{}) {}
